@@ -17,13 +17,16 @@ const FILE_POINTS: &[&str] = &[
     "log.body",
     "log.flushed",
     "cache.enter",
+    "cache.full.body",
     "cache.full.flushed",
     "cache.seek",
     "cache.msgidx",
+    "cache.mr.body",
     "cache.mr.flushed",
     "cache.mr.seek",
     "cache.mr.msgidx",
     "cache.mr.ord",
+    "cache.comp.body",
     "cache.comp.flushed",
     "cache.comp.idx",
     "cache.exit",
@@ -323,9 +326,111 @@ pub fn engine_sched(cases: Vec<Value>, out: &mut NdjsonOut) {
 // ---------------------------------------------------------------------------------------------
 // crash: one execution of an operation yields all its crash points (C05)
 
+/// Number of complete JSON lines (a complete final line without its newline counts: the code
+/// reads it); -1 = file absent.
+fn count_lines(p: &Path) -> i64 {
+    match std::fs::read(p) {
+        Ok(b) => String::from_utf8_lossy(&b)
+            .split('\n')
+            .filter(|l| !l.is_empty() && serde_json::from_str::<Value>(l).is_ok())
+            .count() as i64,
+        Err(_) => -1,
+    }
+}
+
+/// How far each per-thread cache file is behind the truth log (in frames); -1 = file absent.
+fn cache_lag(env: &StoreEnv) -> Value {
+    let tcount = env.ids.lock().unwrap().threads.len();
+    let mut out = Vec::new();
+    for t in 0..tcount {
+        let frames = env.truth_frames(t);
+        if frames.is_empty() {
+            continue;
+        }
+        let tid = env.thread_id(t);
+        let truth_mr = frames
+            .iter()
+            .filter(|e| {
+                matches!(
+                    e.kind,
+                    rip_kernel::EventKind::ContinuityMessageAppended { .. }
+                        | rip_kernel::EventKind::ContinuityRunEnded { .. }
+                )
+            })
+            .count() as i64;
+        let truth_ck = frames
+            .iter()
+            .filter(|e| matches!(e.kind, rip_kernel::EventKind::ContinuityCompactionCheckpointCreated { .. }))
+            .count() as i64;
+        let truth_msgs = frames
+            .iter()
+            .filter(|e| matches!(e.kind, rip_kernel::EventKind::ContinuityMessageAppended { .. }))
+            .count() as i64;
+        let ord_records = env
+            .cache_path(&tid, "mrord")
+            .and_then(|p| std::fs::metadata(p).ok())
+            .map(|m| (m.len() as i64 - 32) / 24)
+            .unwrap_or(-1);
+        let lines = |f: &str| env.cache_path(&tid, f).map(|p| count_lines(&p)).unwrap_or(-1);
+        // an absent file is "behind by everything": the next append re-creates it with one entry only
+        let lag = |truth: i64, have: i64| if have < 0 { json!(truth) } else { json!(truth - have) };
+        out.push(json!({
+            "t": t,
+            "full": lag(frames.len() as i64, lines("full")),
+            "mr": lag(truth_mr, lines("mr")),
+            "comp": lag(truth_ck, lines("comp")),
+            "compidx": lag(truth_ck, lines("compidx")),
+            "ord": lag(truth_msgs, ord_records),
+        }));
+    }
+    json!(out)
+}
+
+fn cache_differential(root: &Path, ids: crate::store::Ids) -> Vec<Value> {
+    // C04 on the recovered store: each read capability with caches as found vs caches removed
+    let mut env = StoreEnv::reopen_at(root.to_path_buf(), ids);
+    let tcount = env.ids.lock().unwrap().threads.len();
+    let mut diffs = Vec::new();
+    let mut all_q = Vec::new();
+    for t in 0..tcount {
+        if env.truth_frames(t).is_empty() {
+            continue;
+        }
+        all_q.extend(vec![
+            json!({"op": "replay", "t": t}),
+            json!({"op": "cut_points", "t": t, "stride": 1, "limit": 8}),
+            json!({"op": "status", "t": t, "stride": 1}),
+            json!({"op": "cursor_status", "t": t}),
+            json!({"op": "selection_status", "t": t}),
+            json!({"op": "auto", "t": t, "stride": 1, "max_new": 4, "dry_run": true}),
+        ]);
+    }
+    let with: Vec<Value> = all_q.iter().map(|q| env.exec(q)).collect();
+    let _ = std::fs::remove_dir_all(env.streams_dir());
+    env.restart();
+    let without: Vec<Value> = all_q.iter().map(|q| env.exec(q)).collect();
+    for (i, q) in all_q.iter().enumerate() {
+        let mut a = with[i].clone();
+        let mut b = without[i].clone();
+        strip_best_effort(&mut a);
+        strip_best_effort(&mut b);
+        if a != b {
+            let norm = env.normalizer();
+            diffs.push(json!({"query": q, "with_caches": norm.norm(&a), "without": norm.norm(&b)}));
+        }
+    }
+    diffs
+}
+
 fn check_recovered(snap_root: &Path, ids: crate::store::Ids, post: &[Value], acked: &[Value]) -> Value {
+    // the differential runs on its own copy (it removes the caches)
+    let diff_root = snap_root.with_extension("diff");
+    let _ = util::copy_dir(snap_root, &diff_root);
+    let diffs = cache_differential(&diff_root, ids.clone());
+    let _ = std::fs::remove_dir_all(&diff_root);
     // "restart": open the copy with a fresh engine/store
     let mut env = StoreEnv::reopen_at(snap_root.to_path_buf(), ids);
+    let lag = cache_lag(&env);
     let before = log_summary(&env.data);
     let post_results = run_ops_seq(&mut env, post);
     let after = log_summary(&env.data);
@@ -342,34 +447,18 @@ fn check_recovered(snap_root: &Path, ids: crate::store::Ids, post: &[Value], ack
             acked_detail.push(json!([sid, seq, n]));
         }
     }
-    // C04 on the recovered store: each read capability with caches as found vs caches removed
-    let tcount = env.ids.lock().unwrap().threads.len();
-    let mut diffs = Vec::new();
-    for t in 0..tcount {
-        let queries = vec![
-            json!({"op": "replay", "t": t}),
-            json!({"op": "cut_points", "t": t, "stride": 1, "limit": 8}),
-            json!({"op": "status", "t": t, "stride": 1}),
-            json!({"op": "cursor_status", "t": t}),
-            json!({"op": "selection_status", "t": t}),
-        ];
-        let with: Vec<Value> = queries.iter().map(|q| env.exec(q)).collect();
-        let _ = std::fs::remove_dir_all(env.streams_dir());
-        env.restart();
-        let without: Vec<Value> = queries.iter().map(|q| env.exec(q)).collect();
-        for (i, q) in queries.iter().enumerate() {
-            let mut a = with[i].clone();
-            let mut b = without[i].clone();
-            strip_best_effort(&mut a);
-            strip_best_effort(&mut b);
-            if a != b {
-                diffs.push(json!({"query": q, "with_caches": a, "without": b}));
-            }
-        }
-    }
+    let diffs_after = {
+        let ids = env.ids.lock().unwrap().clone();
+        let root2 = snap_root.with_extension("diff2");
+        let _ = util::copy_dir(snap_root, &root2);
+        let d = cache_differential(&root2, ids);
+        let _ = std::fs::remove_dir_all(&root2);
+        d
+    };
     let r = json!({
         "before": before, "after": after, "post": post_results,
         "acked_ok": acked_ok, "acked_detail": acked_detail, "cache_diffs": diffs,
+        "cache_diffs_after_post": diffs_after, "cache_lag": lag,
     });
     drop(env);
     r
@@ -403,7 +492,7 @@ pub fn engine_crash(cases: Vec<Value>, out: &mut NdjsonOut) {
             .collect();
         let op = case.get("op").cloned().unwrap_or(Value::Null);
         let post = case.get("post").and_then(|o| o.as_array()).cloned().unwrap_or_default();
-        let snap_dir = env.root.join("snaps");
+        let snap_dir = env.root.with_extension("snaps");
         hub.set_record(true);
         hub.snap_begin(
             FILE_POINTS,
@@ -416,26 +505,38 @@ pub fn engine_crash(cases: Vec<Value>, out: &mut NdjsonOut) {
         } else {
             env.exec(&op)
         };
-        let snaps = hub.snap_end();
+        let mut snaps = hub.snap_end();
         let trace = normalize_trace(hub.take_trace(), &env);
         let ids_now = env.ids.lock().unwrap().clone();
-        // every snapshot = one crash point
+        // the completed operation (crash after the acknowledgement) is the last "crash point"
+        let fin_dir = snap_dir.join("final");
+        let _ = util::copy_dir(&env.data, &fin_dir.join("data"));
+        let _ = util::copy_dir(&env.ws.join(".rip"), &fin_dir.join("ws/.rip"));
+        let (frames, _) = crate::store::stream_seqs(&env.data);
+        let acked_final: Vec<Value> = frames.iter().map(|(_, s, q, _)| json!([s, q])).collect();
+        snaps.push(json!({"k": snaps.len(), "point": "after.return", "fields": {}, "dir": fin_dir.to_string_lossy()}));
+        // the process is dead: drop every in-memory structure, then restart IN PLACE from each
+        // snapshot (same data dir, same workspace root path - the thread index is keyed by it)
+        let root = env.root.clone();
+        let data = env.data.clone();
+        let ws = env.ws.clone();
+        env.engine = None;
+        env.store = None;
+        env.reader = None;
         let mut points = Vec::new();
         for s in &snaps {
             let dir = PathBuf::from(s["dir"].as_str().unwrap_or(""));
-            std::fs::create_dir_all(dir.join("data")).ok();
-            std::fs::create_dir_all(dir.join("ws")).ok();
-            let r = check_recovered(&dir, ids_now.clone(), &post, &acked);
+            let _ = std::fs::remove_dir_all(&data);
+            let _ = std::fs::remove_dir_all(ws.join(".rip"));
+            let _ = util::copy_dir(&dir.join("data"), &data);
+            let _ = util::copy_dir(&dir.join("ws/.rip"), &ws.join(".rip"));
+            std::fs::create_dir_all(&data).ok();
+            let acked_here = if s["point"] == "after.return" { &acked_final } else { &acked };
+            let r = check_recovered(&root, ids_now.clone(), &post, acked_here);
             points.push(json!({"k": s["k"], "point": s["point"], "fields": s["fields"], "check": r}));
         }
-        // and the completed operation (crash after the acknowledgement)
-        let (frames, _) = crate::store::stream_seqs(&env.data);
-        acked = frames.iter().map(|(_, s, q, _)| json!([s, q])).collect();
-        let fin_dir = env.root.join("final");
-        let _ = util::copy_dir(&env.data, &fin_dir.join("data"));
-        let _ = util::copy_dir(&env.ws.join(".rip"), &fin_dir.join("ws/.rip"));
-        let r = check_recovered(&fin_dir, ids_now.clone(), &post, &acked);
-        points.push(json!({"k": snaps.len(), "point": "after.return", "fields": {}, "check": r}));
+        let _ = std::fs::remove_dir_all(&snap_dir);
+        let _ = acked.len();
         out.write(&json!({
             "id": case["id"], "setup": setup_r, "op": op_r, "points": points, "trace": trace,
         }));
